@@ -1,6 +1,7 @@
 package seq
 
 import (
+	"fmt"
 	"testing"
 
 	"pgregory.net/rapid"
@@ -45,3 +46,27 @@ func genC11(t *rapid.T) Case {
 }
 
 func TestC11(t *testing.T) { ev.Check(t, "C11", "ext", genC11, Exec) }
+
+// genC11BinKey draws short programs over a key pool in which most keys are not valid UTF-8.
+func genC11BinKey(t *rapid.T) BinKeyCase {
+	var c BinKeyCase
+	pool := []string{"ff", "61ff62", "c328", "fffe00", "e28228", "6b00ff", "f0288cbc", "c0af", "eda080"}
+	for n := rapid.IntRange(1, 3).Draw(t, "nkeys"); n > 0; n-- {
+		if rapid.IntRange(0, 3).Draw(t, "valid") == 0 {
+			c.KeysHex = append(c.KeysHex, rapid.SampledFrom([]string{"61", "d0bad0bbd18ed187", "2f612f62"}).Draw(t, "validKey"))
+		} else if rapid.Bool().Draw(t, "fromPool") {
+			c.KeysHex = append(c.KeysHex, rapid.SampledFrom(pool).Draw(t, "poolKey"))
+		} else {
+			b := rapid.SliceOfN(rapid.Byte(), 1, 12).Draw(t, "keyBytes")
+			c.KeysHex = append(c.KeysHex, fmt.Sprintf("%x", b))
+		}
+	}
+	kinds := []string{"set", "set", "setr", "create", "get", "getr", "del", "keys", "begin", "commit", "rollback"}
+	for n := rapid.IntRange(1, 10).Draw(t, "nops"); n > 0; n-- {
+		c.Ops = append(c.Ops, BKOp{K: rapid.SampledFrom(kinds).Draw(t, "kind"), Key: rapid.IntRange(0, 2).Draw(t, "key"),
+			Len: rapid.SampledFrom([]int{0, 1, 9, 2048, 5000}).Draw(t, "len"), Tx: rapid.Bool().Draw(t, "tx")})
+	}
+	return c
+}
+
+func TestC11BinKey(t *testing.T) { ev.Check(t, "C11", "binkey", genC11BinKey, ExecC11BinKey) }
